@@ -48,6 +48,17 @@ RECURSIVE CatText(_, _, _)
 CatText(b, ts, i) == IF i > Len(ts) THEN <<>> ELSE (IF ts[i].k = "tx" THEN SubSeq(b, ts[i].s + 1, ts[i].e) ELSE <<>>) \o CatText(b, ts, i + 1)
 Text(b) == UnText(CatText(b, Toks(b), 1))
 
+\* raw character data (escapes kept)
+RawText(b) == CatText(b, Toks(b), 1)
+\* Text content in a legacy encoding: & < > of the given string are escaped, then every character is encoded
+\* by the witnessed encoder r.cmap (its bytes, or a numeric character reference when the encoding lacks it)
+RECURSIVE CmapGet(_, _, _)
+CmapGet(cmap, cp, i) == IF i > Len(cmap) THEN <<63>> ELSE IF cmap[i][1] = cp THEN cmap[i][2] ELSE CmapGet(cmap, cp, i + 1)
+RECURSIVE EncEsc(_, _)
+EncEsc(cps, cmap) == IF cps = <<>> THEN <<>> ELSE
+  (CASE cps[1] = 38 -> <<38, 97, 109, 112, 59>> [] cps[1] = 60 -> <<38, 108, 116, 59>> [] cps[1] = 62 -> <<38, 103, 116, 59>>
+     [] OTHER -> CmapGet(cmap, cps[1], 1)) \o EncEsc(Tail(cps), cmap)
+
 FirstIdx(sh, P(_)) == LET s == SelectSeq([i \in 1..Len(sh) |-> i], P) IN IF s = <<>> THEN 0 ELSE s[1]
 
 \* attribute list after set_attribute(n, v): replace the first attribute of that name or append
@@ -63,6 +74,11 @@ Verdict(r) ==
   IF r.res = "err" THEN (IF r.output = r.input THEN "ok" ELSE "C08: a rejected argument changed the output")
   ELSE IF r.api = "text" THEN
        (IF so # si THEN "C08: inserted text changed the token structure"
+        ELSE IF "cmap" \in DOMAIN r THEN
+             (IF r.textctx /\ ~(LET ti == RawText(r.input)  to == RawText(r.output)  x == EncEsc(r.argcp, r.cmap) IN
+                                \E k \in 0..Len(ti) : to = SubSeq(ti, 1, k) \o x \o SubSeq(ti, k + 1, Len(ti)))
+              THEN "C08: inserted text is not the escaped string encoded character by character in the document encoding"
+              ELSE "ok")
         ELSE IF r.textctx /\ ~(LET ti == Text(r.input)  to == Text(r.output) IN
                 \E k \in 0..Len(ti) : to = SubSeq(ti, 1, k) \o r.arg \o SubSeq(ti, k + 1, Len(ti)))
              THEN "C08: the inserted text does not read back as the given string"
